@@ -93,7 +93,9 @@ fn run_round(actors: &[Actor], rep: &mut Report) -> Outcome {
                 let _ = j.await;
             }
             // a timed-out tool may still be running: give it time to write its end stamp
-            tokio::time::sleep(std::time::Duration::from_millis(900)).await;
+            if actors.iter().any(|a| a.kind == "session-timeout") {
+                tokio::time::sleep(std::time::Duration::from_millis(900)).await;
+            }
         });
     }
     drop(rt);
@@ -128,13 +130,64 @@ fn run_round(actors: &[Actor], rep: &mut Report) -> Outcome {
     Outcome { intervals, thread_side_effects, frames_per_actor }
 }
 
+/// the tools exempt from the permit (read, ls, grep, artifact_fetch) must not modify the workspace
+fn read_only_tools_leave_the_tree_alone(rep: &mut Report) {
+    let scratch = Scratch::new("c11ro");
+    let data_dir = scratch.path().join("data");
+    let ws = scratch.path().join("ws");
+    std::fs::create_dir_all(ws.join("sub")).unwrap();
+    std::fs::write(ws.join("seed.txt"), "seed\nline two\n").unwrap();
+    std::fs::write(ws.join("sub/inner.txt"), "inner seed\n").unwrap();
+    let rt = tokio::runtime::Builder::new_multi_thread().worker_threads(2).enable_all().build().unwrap();
+    let app = ripd::verif_export::VerifApp::new(data_dir.clone(), ws.clone());
+    let engine: Arc<SessionEngine> = app.engine();
+    let envelopes = [
+        json!({"tool": "read", "args": {"path": "seed.txt"}}),
+        json!({"tool": "read", "args": {"path": "missing.txt"}}),
+        json!({"tool": "ls", "args": {"path": "."}}),
+        json!({"tool": "ls", "args": {"path": "sub", "recursive": true}}),
+        json!({"tool": "grep", "args": {"pattern": "seed"}}),
+        json!({"tool": "grep", "args": {"pattern": "seed", "path": "sub"}}),
+        json!({"tool": "artifact_fetch", "args": {"id": "0000000000000000000000000000000000000000000000000000000000000000"}}),
+        json!({"tool": "artifact_fetch", "args": {}}),
+    ];
+    for env in envelopes {
+        let before = crate::c12::list_tree(&ws);
+        rt.block_on(async {
+            let h = engine.create_session();
+            let mut rx = h.subscribe();
+            engine.spawn_session(h, env.to_string(), None, None);
+            let deadline = tokio::time::Instant::now() + std::time::Duration::from_secs(10);
+            loop {
+                match tokio::time::timeout_at(deadline, rx.recv()).await {
+                    Ok(Ok(ev)) => {
+                        if matches!(ev.kind, rip_kernel::EventKind::SessionEnded { .. }) {
+                            break;
+                        }
+                    }
+                    _ => break,
+                }
+            }
+        });
+        let after = crate::c12::list_tree(&ws);
+        rep.evaluations += 1;
+        rep.count("read_only_tool_tree_checks");
+        if before != after {
+            rep.oracle_failure("C11|exempt-tool-writes", &format!("a tool exempt from the workspace permit changed the workspace tree: {env}"), json!({"envelope": env}));
+        }
+    }
+    drop(app);
+    drop(rt);
+}
+
 pub fn run(opts: &Opts) -> Report {
     let mut rep = Report::new(
         "C11",
         "rounds of 3-7 concurrent actors on one engine: sessions running mutating tool envelopes (bash writing begin/end stamps into the workspace, write, apply_patch, checkpoint create), a read-only tool, background shell tasks through the router, and a bash envelope that times out while its command is still running; stamps give the real mutation intervals; non-trivial = round with >=3 stamp-writing actors, distinct by actor kinds",
     );
     let mut rng = Rng::new(opts.seed);
-    let rounds = if opts.thorough { 40 } else { 6 } * opts.scale;
+    let rounds = if opts.thorough { 60 } else { 14 } * opts.scale;
+    read_only_tools_leave_the_tree_alone(&mut rep);
     for r in 0..rounds {
         let n = rng.range(3, 7) as usize;
         let mut actors: Vec<Actor> = (0..n)
